@@ -233,7 +233,7 @@ class atom(boolean.AndRestriction):
         else:
             self.slot_operator = self.slot = self.subslot = self.repo_id = None
 
-        self.blocks = atom[0] == "!"
+        self.blocks = atom.startswith("!")
         if self.blocks:
             atom = atom[1:]
             # hackish/slow, but lstrip doesn't take a 'prune this many' arg
@@ -250,8 +250,10 @@ class atom(boolean.AndRestriction):
         else:
             self.blocks_strongly = False
 
+        if not atom:
+            raise errors.MalformedAtom(orig_atom, "missing category/package")
         if atom[0] in ("<", ">"):
-            if atom[1] == "=":
+            if atom[1:2] == "=":
                 self.op = atom[:2]
                 atom = atom[2:]
             else:
